@@ -128,6 +128,10 @@ func judgeC16(rep *lib.Report, c *lib.Ctx, ln *printerLine, res *realResult, kas
 		{"SafeFormat", func() []byte {
 			return []byte(redact.Sprint(sfRoute{printf, format, args}))
 		}},
+		{"SafeFormat under %+v", func() []byte { return []byte(redact.Sprintf("%+v", sfRoute{printf, format, args})) }},
+		{"SafeFormat under %#v", func() []byte { return []byte(redact.Sprintf("%#v", sfRoute{printf, format, args})) }},
+		{"SafeFormat under %6.2v", func() []byte { return []byte(redact.Sprintf("%6.2v", sfRoute{printf, format, args})) }},
+		{"SafeFormat under %-08d", func() []byte { return []byte(redact.Sprintf("%-08d", sfRoute{printf, format, args})) }},
 	}
 	want := lib.NormOf(direct)
 	for _, r := range routes {
